@@ -225,8 +225,10 @@ impl Family for Matrix {
     }
 }
 
-/// the same through write_col and the wire: one binary row per value
+/// the same through write_col and the wire: one binary row per value, alone in its response and
+/// behind each kind of earlier result of the same response
 struct ThroughRows;
+const BEFORE: [&str; 5] = ["alone in the response", "behind a zero-column resultset whose rows were given integers", "behind an OK with more results", "behind a zero-column resultset with one row", "behind a resultset of the same columns"];
 impl ThroughRows {
     fn vals() -> Vec<(Val, i128)> {
         let mut v = Vec::new();
@@ -271,11 +273,11 @@ impl Family for ThroughRows {
         "through-write_col".into()
     }
     fn len(&self) -> u64 {
-        (Self::vals().len() * COLS.len() * 2) as u64
+        (Self::vals().len() * COLS.len() * 2 * BEFORE.len()) as u64
     }
     fn run(&self, idx: u64, st: &mut Stats) -> Result<(), Violation> {
         let vals = Self::vals();
-        let d = digits(idx, &[vals.len() as u64, COLS.len() as u64, 2]);
+        let d = digits(idx, &[vals.len() as u64, COLS.len() as u64, 2, BEFORE.len() as u64]);
         let (val, num) = vals[d[0] as usize].clone();
         let (ct, cname, bits) = COLS[d[1] as usize];
         let unsigned = d[2] == 1;
@@ -285,7 +287,20 @@ impl Family for ThroughRows {
             col("c", ct, if unsigned { ColumnFlags::UNSIGNED_FLAG } else { ColumnFlags::empty() }),
             col("tail", ColumnType::MYSQL_TYPE_SHORT, ColumnFlags::empty()),
         ]);
-        let prog = Arc::new(vec![WOp::Start(cols.clone()), WOp::WriteCol(Val::I8(0x55)), WOp::WriteCol(val.clone()), WOp::WriteCol(Val::I16(0x1234)), WOp::EndRow, WOp::Finish]);
+        // what the same response carries in front of the resultset under test
+        let c0: Arc<Vec<Column>> = Arc::new(Vec::new());
+        let mut ops = match d[3] {
+            0 => vec![],
+            1 => vec![WOp::Start(c0.clone()), WOp::WriteCol(val.clone()), WOp::WriteCol(Val::I64(i64::MIN)), WOp::EndRow, WOp::WriteCol(Val::U32(u32::MAX)), WOp::EndRow, WOp::FinishOne],
+            2 => vec![WOp::CompleteOne(1, 1)],
+            3 => vec![WOp::Start(c0.clone()), WOp::EndRow, WOp::FinishOne],
+            _ => vec![WOp::Start(cols.clone()), WOp::WriteCol(Val::I8(1)), WOp::WriteCol(Val::I8(2)), WOp::WriteCol(Val::I16(3)), WOp::EndRow, WOp::FinishOne],
+        };
+        if d[3] != 0 {
+            st.bump("rows_behind_another_result_of_the_same_response");
+        }
+        ops.extend(vec![WOp::Start(cols.clone()), WOp::WriteCol(Val::I8(0x55)), WOp::WriteCol(val.clone()), WOp::WriteCol(Val::I16(0x1234)), WOp::EndRow, WOp::Finish]);
+        let prog = Arc::new(ops);
         let conv = Conv::new(vec![ClientCmd::new(with_byte(COM_STMT_PREPARE, b"id=1 p=0")), ClientCmd::new(cmd_execute(1, 0, 1, &[])), ping()]);
         let s = conv.stream();
         let stream = Arc::new(s.bytes);
@@ -299,7 +314,7 @@ impl Family for ThroughRows {
         });
         let o = run_conn(sim, ConnCfg::new(behave));
         st.transitions += 1;
-        let what = format!("{:?} into {}{} column through write_col", val, cname, if unsigned { " UNSIGNED" } else { "" });
+        let what = format!("{:?} into {}{} column through write_col, {}", val, cname, if unsigned { " UNSIGNED" } else { "" }, BEFORE[d[3] as usize]);
         if let ConnResult::Panic(l, m) = &o.res {
             // a panic inside the shim's write call is a refusal for this property
             st.bump("refused_by_panic");
@@ -314,8 +329,8 @@ impl Family for ThroughRows {
         }
         st.bump("rows_accepted");
         let dd = decode_all(delivered(&o), &conv, &s.last_seq, 3, false).map_err(|e| Violation::new("row-undecodable", format!("{}: {}", what, e)))?;
-        match &dd.replies[1][..] {
-            [Unit::ResultSet { rows, .. }] if rows.len() == 1 => {
+        match dd.replies[1].last() {
+            Some(Unit::ResultSet { rows, .. }) if rows.len() == 1 && dd.replies[1].len() == if d[3] == 0 { 1 } else { 2 } => {
                 let want = if unsigned { Cell::Bin(BinVal::UInt(num as u64)) } else { Cell::Bin(BinVal::Int(num as i64)) };
                 if rows[0][1] != want || num < cmin || num > cmax {
                     return Err(Violation::new("altered-through-row", format!("{}: accepted, the client decodes {:?}", what, rows[0][1])));
@@ -330,8 +345,8 @@ impl Family for ThroughRows {
     }
     fn describe(&self, idx: u64) -> J {
         let vals = Self::vals();
-        let d = digits(idx, &[vals.len() as u64, COLS.len() as u64, 2]);
-        json!({"value": format!("{:?}", vals[d[0] as usize].0), "column": COLS[d[1] as usize].1, "unsigned": d[2] == 1})
+        let d = digits(idx, &[vals.len() as u64, COLS.len() as u64, 2, BEFORE.len() as u64]);
+        json!({"value": format!("{:?}", vals[d[0] as usize].0), "column": COLS[d[1] as usize].1, "unsigned": d[2] == 1, "before_it_in_the_same_response": BEFORE[d[3] as usize]})
     }
 }
 
